@@ -12,6 +12,10 @@ Local Open Scope list_scope.
 Definition funs := reachable_funs policy_C17 gen_funs entries_C17.
 Definition skeletons_C17 : list stmt := map gen_entry entries_C17.
 
+(* explanation printed before the obligations are attempted: what the policy does not know *)
+Definition unknown_to_policy := Eval vm_compute in diagnose policy_C17 gen_funs entries_C17.
+Print unknown_to_policy.
+
 Lemma C17_locks : well_locked_all policy_C17 funs skeletons_C17 = true.
 Proof. vm_compute. reflexivity. Qed.
 
